@@ -231,7 +231,7 @@ Proof.
     unfold wf_world in Hwf. rewrite Forall_forall in Hwf. destruct (Hwf P HP) as [cx [Ecx Hlt]].
     rewrite Ecx. destruct (nth_error_lt_Some _ _ Hlt) as [m Em]. rewrite Em.
     destruct j as [|j']; [simpl; auto|].
-    destruct (nth_error (p_nodes P) j') as [[rid [f|p|g|]]|] eqn:EN; simpl; auto.
+    destruct (nth_error (p_nodes P) j') as [[rid [f|p|g|h0|]]|] eqn:EN; simpl; auto.
     repeat split; auto.
     + apply st_ok_set; auto. apply (delete_parts_ok A (wspec w)). eapply st_ok_nth; eauto.
     + apply set_nth_length.
